@@ -60,7 +60,6 @@ def headReasons (key : String) (c : Val) (d : Val) : List String :=
     | .arr (q :: qs) => listReasons (q :: qs) d
     | _ => ["malformed"])
   else if key.startsWith "$" then ["malformed"]
-  else if !keyOk key then ["badkey"]
   else
     (match cands (splitDots key) d with
     | .ok _ => []
@@ -85,7 +84,6 @@ def matchHead (key : String) (c : Val) (d : Val) : R Bool :=
     | _ => .error .opFail)
   else if key = "$expr" then unmodelled
   else if key.startsWith "$" then .error .opFail
-  else if !keyOk key then unmodelled
   else condHolds c (reach (splitDots key) d)
 
 theorem matchFields_cons (key : String) (c : Val) (rest : Fields) (d : Val) :
@@ -181,9 +179,13 @@ theorem logical_agree (nb : Bool) (d : Val) (key : String) (c : Val)
   | .oid _, _, _, hr => simp at hr
   | .doc _, _, _, hr => simp at hr
 
-theorem candsKey_of_keyOk {key : String} (d : Val) (h : keyOk key = true) :
-    candsKey key d = cands (splitDots key) d := by
-  simp [candsKey, keyOk_ne_empty h, h]
+/-- the matcher splits every key at its dots, whatever the components are -/
+theorem candsKey_eq_cands (key : String) (d : Val) :
+    candsKey key d = cands (splitDots key) d := rfl
+
+/-- (kept for the modules that use it; the hypothesis is no longer needed) -/
+theorem candsKey_of_keyOk {key : String} (d : Val) (_h : keyOk key = true) :
+    candsKey key d = cands (splitDots key) d := rfl
 
 theorem head_agree (nb : Bool) (d : Val) (hd : Clean nb d) (key : String) (c : Val)
     (ih : ∀ xs, c = .arr xs → ∀ q, q ∈ xs → Agree nb d q) (hcc : Clean nb c)
@@ -205,29 +207,27 @@ theorem head_agree (nb : Bool) (d : Val) (hd : Clean nb d) (key : String) (c : V
     · simp [hs] at hr
     simp only [hs, Bool.false_eq_true, ↓reduceIte] at hr
     have hs' : key.startsWith "$" = false := by simpa using hs
-    by_cases hko : keyOk key = true
-    · simp only [hko, Bool.not_true, Bool.false_eq_true, ↓reduceIte, List.append_eq_nil_iff] at hr
-      obtain ⟨hr1, hr2⟩ := hr
-      have hck : candsKey key d = .ok (reach (splitDots key) d) := by
-        rw [candsKey_of_keyOk d hko]
-        cases hcd : cands (splitDots key) d with
-        | error e => simp [hcd] at hr1
-        | ok cs' => rw [cands_eq_reach _ _ _ hcd]
-      have hcs : CandsAll (Clean nb) (reach (splitDots key) d) := by
-        intro cnd hm v hv; subst hv
-        exact reach_hered (hered_clean nb) _ d hd v hm
-      obtain ⟨b, h1, h2⟩ := cond_spec nb c key d _ hck hr2 hcc hcs
-      have n1 : key ≠ "$not" := ne_of_not_dollar hs' (by decide +kernel)
-      have n2 : key ≠ "$expr" := ne_of_not_dollar hs' (by decide +kernel)
-      have n3 : key ≠ "$text" := ne_of_not_dollar hs' (by decide +kernel)
-      have n4 : key ≠ "$where" := ne_of_not_dollar hs' (by decide +kernel)
-      have n5 : key ≠ "$jsonSchema" := ne_of_not_dollar hs' (by decide +kernel)
-      refine ⟨b, ?_, ?_⟩
-      · simp [applyHead, hcm, logicalKeys, topLevelOperators, hl.1, hl.2.1, hl.2.2, n1, n2, n3, n4, n5,
-          Ne.symm hl.1, Ne.symm hl.2.1, Ne.symm hl.2.2, Ne.symm n1, Ne.symm n2, Ne.symm n3, Ne.symm n4,
-          Ne.symm n5, hs', h1]
-      · simp [matchHead, hcm, hl.1, hl.2.1, hl.2.2, n2, hs', hko, h2]
-    · simp [hko] at hr
+    simp only [List.append_eq_nil_iff] at hr
+    obtain ⟨hr1, hr2⟩ := hr
+    have hck : candsKey key d = .ok (reach (splitDots key) d) := by
+      rw [candsKey_eq_cands]
+      cases hcd : cands (splitDots key) d with
+      | error e => simp [hcd] at hr1
+      | ok cs' => rw [cands_eq_reach _ _ _ hcd]
+    have hcs : CandsAll (Clean nb) (reach (splitDots key) d) := by
+      intro cnd hm v hv; subst hv
+      exact reach_hered (hered_clean nb) _ d hd v hm
+    obtain ⟨b, h1, h2⟩ := cond_spec nb c key d _ hck hr2 hcc hcs
+    have n1 : key ≠ "$not" := ne_of_not_dollar hs' (by decide +kernel)
+    have n2 : key ≠ "$expr" := ne_of_not_dollar hs' (by decide +kernel)
+    have n3 : key ≠ "$text" := ne_of_not_dollar hs' (by decide +kernel)
+    have n4 : key ≠ "$where" := ne_of_not_dollar hs' (by decide +kernel)
+    have n5 : key ≠ "$jsonSchema" := ne_of_not_dollar hs' (by decide +kernel)
+    refine ⟨b, ?_, ?_⟩
+    · simp [applyHead, hcm, logicalKeys, topLevelOperators, hl.1, hl.2.1, hl.2.2, n1, n2, n3, n4, n5,
+        Ne.symm hl.1, Ne.symm hl.2.1, Ne.symm hl.2.2, Ne.symm n1, Ne.symm n2, Ne.symm n3, Ne.symm n4,
+        Ne.symm n5, hs', h1]
+    · simp [matchHead, hcm, hl.1, hl.2.1, hl.2.2, n2, hs', h2]
 
 theorem fields_agree (nb : Bool) (d : Val) (hd : Clean nb d) (fs : Fields)
     (ih : ∀ k v, (k, v) ∈ fs → ∀ xs, v = .arr xs → ∀ q, q ∈ xs → Agree nb d q)
